@@ -473,10 +473,9 @@ func (s *Server) StartWithPortmapper() error {
 
 	// Register MOUNT service (same port in this implementation)
 	// Register for both v1 and v3 since some clients (like showmount) use v1
-	mountPort := uint32(s.options.MountPort)
-	if mountPort == 0 {
-		mountPort = nfsPort // Use NFS port for mount if not specified
-	}
+	// MOUNT is only served by the NFS listener, so that is the port to
+	// advertise whatever MountPort says; nothing listens on MountPort.
+	mountPort := nfsPort
 	s.portmapper.RegisterService(MOUNT_PROGRAM, 1, IPPROTO_TCP, mountPort)        // v1
 	s.portmapper.RegisterService(MOUNT_PROGRAM, MOUNT_V3, IPPROTO_TCP, mountPort) // v3
 
